@@ -33,7 +33,8 @@ def run(chk):
   cases = []
   for i in range(4000 if thorough else 280):
     n = rng.choice([1, 2, 3])
-    prog = LP.gen_program(rng, n, max_depth=rng.choice([1, 2, 3, 4] if thorough else [1, 2, 3]), malformed=0.15 if i % 6 == 0 else 0.0)
+    prog = LP.gen_program(rng, n, max_depth=rng.choice([1, 2, 3, 4] if thorough else [1, 2, 3]), malformed=0.15 if i % 6 == 0 else 0.0,
+                           name_pool=['w', 'inner', 'h'] if i % 12 == 0 else None, input_shaped=0.35 if i % 4 == 1 else 0.0)
     streams = rng.choice([['params'], ['params', 'dropout'], ['params', 'dropout', 'noise']])
     cases.append({'prog': prog, 'x': [rng.randint(-3, 3) for _ in range(n)], 'child_x': [rng.randint(-3, 3) for _ in range(n)], 'streams': streams, 'pick': rng.randint(0, 20)})
   W = 14
